@@ -208,11 +208,27 @@ pub fn history(args: &Args) {
             if mag > 1000 && matches!(*k, "skew" | "kurt") {
                 continue;
             }
+            // where the statistic is undefined on the window (a mean of nothing, a slope through one
+            // point) the property leaves the value open (DESIGN 5.6): NaN or +-inf, whichever the
+            // rounding residue of the departed elements produces, is not compared
+            if b.exp.get(*k).and_then(|e| e.as_slice().get(n - 1)).map(|e| e.is_any()).unwrap_or(false) {
+                rep.skipped();
+                continue;
+            }
             let fname = valid_fn_name(k);
             let key = format!("{}|alt={:?}", b.key(fname, &format!("[{k}]")), &alt[..cut]);
+          // on the integers themselves: the running sums are exact, so what is left of the replaced history
+          // is exactly nothing.  (A run in a non-dyadic unit was tried and withdrawn: there the residue of
+          // departed elements of magnitude 100 moves the fourth-moment statistics by 1e-3 - rounding
+          // drift proper, which the specification does not decide, DESIGN 10.)
+          for unit in [1.0_f64] {
+            if unit != 1.0 && mag > 1000 {
+                continue;
+            }
             rep.cells += 1;
-            let a = run_valid::<f64, _, f64, Vec<f64>>(k, &enc_vec::<f64>(&b.xs), w, mp, false);
-            let c = run_valid::<f64, _, f64, Vec<f64>>(k, &enc_vec::<f64>(&alt), w, mp, false);
+            let key = if unit == 1.0 { key.clone() } else { format!("{key}|unit=0.1") };
+            let a = run_valid::<f64, _, f64, Vec<f64>>(k, &enc_vec_unit::<f64>(&b.xs, unit), w, mp, false);
+            let c = run_valid::<f64, _, f64, Vec<f64>>(k, &enc_vec_unit::<f64>(&alt, unit), w, mp, false);
             match (a, c) {
                 (Ok(a), Ok(c)) => {
                     let (x, y) = (a[n - 1], c[n - 1]);
@@ -224,7 +240,7 @@ pub fn history(args: &Args) {
                         // and what is left after the removals is exactly the window's own sum
                         // (ewm alone carries fractions).  Kernels whose powers would exceed
                         // that for the chosen magnitude are left out above (DESIGN 5.2).
-                        (x.is_nan() && y.is_nan()) || (x - y).abs() <= 1e-9 * x.abs().max(1.0)
+                        (x.is_nan() && y.is_nan()) || (x - y).abs() <= 1e-9 * x.abs().max(1.0) * if unit == 1.0 { 1.0 } else { (mag as f64).powi(2) }
                     };
                     if same {
                         rep.ok(fname, 0.0)
@@ -235,6 +251,7 @@ pub fn history(args: &Args) {
                 },
                 (Err(e), _) | (_, Err(e)) => rep.mismatch(fname, fname, &key, "Vec<f64>->Vec<f64>/ret", &format!("panicked: {e}"), v),
             }
+          }
         }
     }
     rep.finish();
